@@ -3,6 +3,7 @@ package main
 // Translation of assertion-language expressions to SMT terms in a given state.
 
 import (
+	"go/token"
 	"fmt"
 	"go/constant"
 	"go/types"
@@ -36,6 +37,7 @@ type SpecCtx struct {
 	preMod   map[string]bool  // call sites: arrays modified at pre-existing objects before the call (the callee's own effects do not count)
 	fuelVar  string           // inside the body of a recursive pure function
 	curSpec  *specSig
+	host     *Frame // loops adopted from a contract-less helper: the caller's frame, searched after the helper's own
 }
 
 func (x *Exec) newSpecCtx(st *State, f *Frame, fn *ssa.Function) *SpecCtx {
@@ -50,6 +52,22 @@ func (x *Exec) newSpecCtx(st *State, f *Frame, fn *ssa.Function) *SpecCtx {
 		}
 	}
 	return c
+}
+
+// tryCall evaluates a builtin in the current frame with the host fallback switched off; nil when that is a spec error
+func (c *SpecCtx) tryCall(e *Expr, pos bool) (t *Term) {
+	saveHost := c.host
+	c.host = nil
+	defer func() {
+		c.host = saveHost
+		if r := recover(); r != nil {
+			if _, ok := r.(specErr); !ok {
+				panic(r)
+			}
+			t = nil
+		}
+	}()
+	return c.call(e, pos)
 }
 
 func (c *SpecCtx) fail(f string, a ...interface{}) {
@@ -334,6 +352,16 @@ func (c *SpecCtx) ident(name string) *Term {
 				}
 			}
 		}
+		// a counting loop `for i := 0; i < n; i++`: the number of completed iterations is i (the loop starts it at 0: checked)
+		if c.loop != nil && c.frame != nil {
+			if a := countingVar(c.loop); a != nil {
+				if cell := c.frame.cellsByA[a]; cell != nil {
+					if t, ok := c.st.cells[cell].(*Term); ok {
+						return t
+					}
+				}
+			}
+		}
 		c.fail("$k used outside a range loop")
 	}
 	if strings.HasSuffix(name, "0") && len(name) > 1 {
@@ -349,6 +377,16 @@ func (c *SpecCtx) ident(name string) *Term {
 	}
 	if t, ok := c.local(name); ok {
 		return t
+	}
+	if c.host != nil {
+		// adopted loop: a variable of the calling function (its value cannot change while the helper runs)
+		save, saveLoop := c.frame, c.loop
+		c.frame, c.loop = c.host, nil
+		t, ok := c.local(name)
+		c.frame, c.loop = save, saveLoop
+		if ok {
+			return t
+		}
 	}
 	// package-level constants and variables
 	if p := c.pkg(); p != nil {
@@ -993,6 +1031,16 @@ func (c *SpecCtx) checkStaticReads(sf *specSig, seen map[string]bool) {
 }
 
 func (c *SpecCtx) call(e *Expr, pos bool) *Term {
+	if c.host != nil && (e.Name == "iterdone" || e.Name == "startTrace" || e.Name == "startVal") {
+		// state of a loop of the caller, asked from a loop adopted from a helper: the helper's frame first, then the caller's
+		if t := c.tryCall(e, pos); t != nil {
+			return t
+		}
+		save, saveLoop, saveHost := c.frame, c.loop, c.host
+		c.frame, c.loop, c.host = c.host, nil, nil
+		defer func() { c.frame, c.loop, c.host = save, saveLoop, saveHost }()
+		return c.call(e, pos)
+	}
 	x := c.x
 	name := e.Name
 	arg := func(i int) *Term { return c.tr(e.Args[i], false) }
@@ -1504,4 +1552,69 @@ func sortedKeys(m map[string]bool) []string {
 	}
 	sort.Strings(ks)
 	return ks
+}
+
+// countingVar recognises `for i := 0; i < n; i++` (body without other writes of i): the local i, or nil.
+func countingVar(li *LoopInfo) *ssa.Alloc {
+	var cond *ssa.BinOp
+	for _, in := range li.head.Instrs {
+		if iff, ok := in.(*ssa.If); ok {
+			cond, _ = iff.Cond.(*ssa.BinOp)
+		}
+	}
+	if cond == nil || cond.Op != token.LSS {
+		return nil
+	}
+	ld, ok := cond.X.(*ssa.UnOp)
+	if !ok || ld.Op != token.MUL {
+		return nil
+	}
+	a, ok := ld.X.(*ssa.Alloc)
+	if !ok || a.Heap {
+		return nil
+	}
+	// exactly one store inside the loop: i = i + 1
+	n := 0
+	for b := range li.body {
+		for _, in := range b.Instrs {
+			if s, ok := in.(*ssa.Store); ok && s.Addr == a {
+				n++
+				add, ok := s.Val.(*ssa.BinOp)
+				if !ok || add.Op != token.ADD {
+					return nil
+				}
+				l, ok := add.X.(*ssa.UnOp)
+				if !ok || l.X != a {
+					return nil
+				}
+				k, ok := add.Y.(*ssa.Const)
+				if !ok || k.Value == nil || k.Value.String() != "1" {
+					return nil
+				}
+			}
+		}
+	}
+	if n != 1 {
+		return nil
+	}
+	// initialised to 0 right before the loop: the only store outside the loop, in a predecessor of the head
+	init := 0
+	for _, b := range a.Parent().Blocks {
+		if li.body[b] {
+			continue
+		}
+		for _, in := range b.Instrs {
+			if s, ok := in.(*ssa.Store); ok && s.Addr == a {
+				k, ok := s.Val.(*ssa.Const)
+				if !ok || k.Value == nil || k.Value.String() != "0" {
+					return nil
+				}
+				init++
+			}
+		}
+	}
+	if init != 1 {
+		return nil
+	}
+	return a
 }
